@@ -547,15 +547,24 @@ func checkC05(P *Program, r *Result, tier string) {
 				} else if !ok && fa.prove(ineqGE(fa.nilExpand(ret.Results[0]), linConst(1)), ret.Block(), rootCtx) {
 					continue
 				}
-				okNil := true
-				for _, f := range []string{"buf", "pendingBuf"} {
-					key := "P:" + fn.Params[0].Name() + "." + f
-					ver := fa.mem.versionAt(ret, key)
-					if ver == nil || ver.Kind != mStore || !isNilConst(ver.Val) {
-						okNil = false
+				// a single exit shared with the failure path is judged per incoming edge
+				for _, rc := range retEdgeCases(ret) {
+					if succ, known := caseSuccess(rc); known && !succ {
+						continue
 					}
+					okNil := true
+					for _, f := range []string{"buf", "pendingBuf"} {
+						key := "P:" + fn.Params[0].Name() + "." + f
+						ver := fa.mem.versionAt(ret, key)
+						if ver != nil && rc.pred >= 0 && ver.Kind == mPhi && ver.Block == ret.Block() {
+							ver = fa.mem.phiIncoming(ver, rc.pred)
+						}
+						if ver == nil || ver.Kind != mStore || !isNilConst(ver.Val) {
+							okNil = false
+						}
+					}
+					r.add("ONCE", shortName(fn), "return", "after a successful flush buf = nil and pendingBuf = nil (nothing can be flushed twice, WrittenLen = 0)", P.pos(instrPos(ret)), okNil, "")
 				}
-				r.add("ONCE", shortName(fn), "return", "after a successful flush buf = nil and pendingBuf = nil (nothing can be flushed twice, WrittenLen = 0)", P.pos(instrPos(ret)), okNil, "")
 			}
 			// a sink error is stored and returned
 			ev := resultValue(w, 1)
@@ -564,7 +573,19 @@ func checkC05(P *Program, r *Result, tier string) {
 				for _, st := range storesTo(fn, "err") {
 					if st.Val == ev {
 						for _, ret := range returnsOf(fn) {
-							if ret.Results[0] == ev && instrDominates(st, ret) {
+							if ret.Results[0] != ev {
+								continue
+							}
+							all := true
+							for _, rc := range retEdgeCases(ret) {
+								if succ, known := caseSuccess(rc); known && succ {
+									continue // the shared exit, reached without an error
+								}
+								if !instrDominates(st, rc.at) {
+									all = false
+								}
+							}
+							if all {
 								stored = true
 							}
 						}
